@@ -21,10 +21,10 @@ type c01Grammar struct {
 
 // compileCandidates generates grammars with gen until n compile without error.
 // Conflict errors are expected (the grammar is simply not LALR(1)); other errors are counted.
-func compileCandidates(c *fw.Ctx, n, maxTries int, gen func(i int) (*gram.PGrammar, int, bool)) []*c01Grammar {
+func compileCandidates(c *fw.Ctx, n, maxTries int, gen func(i, accepted int) (*gram.PGrammar, int, bool)) []*c01Grammar {
 	var out []*c01Grammar
 	for i := 0; len(out) < n && i < maxTries; i++ {
-		pg, optv, big := gen(i)
+		pg, optv, big := gen(i, len(out))
 		name := fmt.Sprintf("g%04d", len(out))
 		text := pg.Text(name)
 		c.Note(map[string]string{"grammar.tm": text})
@@ -153,7 +153,7 @@ func c01Run(c *fw.Ctx) {
 		nSmall, nBig = 20, 1
 	}
 	r := c.R
-	gs := compileCandidates(c, nSmall, nSmall*30, func(i int) (*gram.PGrammar, int, bool) {
+	gs := compileCandidates(c, nSmall, nSmall*30, func(i, accepted int) (*gram.PGrammar, int, bool) {
 		var pg *gram.PGrammar
 		if i%4 == 3 {
 			pg = gram.LeftRecCFG(r)
@@ -161,14 +161,13 @@ func c01Run(c *fw.Ctx) {
 		} else {
 			pg = gram.RandCFG(r)
 		}
-		optv := (c.Case*nSmall + i) % 8
-		if i%4 == 3 {
-			optv = r.Intn(8)
-		}
+		// the option vector follows the number of grammars accepted so far, so that all 8 vectors are
+		// used in every case whatever the rejection pattern is
+		optv := (c.Case*3 + accepted) % 8
 		pg.Opts = tableOpts(optv)
 		return pg, optv, false
 	})
-	big := compileCandidates(c, nBig, nBig*10, func(i int) (*gram.PGrammar, int, bool) {
+	big := compileCandidates(c, nBig, nBig*10, func(i, accepted int) (*gram.PGrammar, int, bool) {
 		pg := gram.LargeCFG(r)
 		optv := (c.Case + i) % 8
 		pg.Opts = tableOpts(optv)
